@@ -308,6 +308,8 @@ func (w SocialWrappedCallbacks) update(c context.Context, a vocab.ActivityStream
 		t, err := w.db.Get(c, loopId)
 		if err != nil {
 			return err
+		} else if t == nil {
+			return ErrNotFound
 		}
 		m, err := t.Serialize()
 		if err != nil {
@@ -396,6 +398,8 @@ func (w SocialWrappedCallbacks) deleteFn(c context.Context, a vocab.ActivityStre
 		t, err := w.db.Get(c, loopId)
 		if err != nil {
 			return err
+		} else if t == nil {
+			return ErrNotFound
 		}
 		tomb := toTombstone(t, loopId, w.clock.Now())
 		if err := w.db.Update(c, tomb); err != nil {
